@@ -96,6 +96,7 @@ class Contract(object):
                                                     if issubclass(self.raises[which - 1], db_exc.DBDuplicateEntry) else {}))
                         if self.model is not None:
                             self.model(I, self, args, kwargs, exc)
+                        I.event('contract.raised', self.name, exc.cls)
                         raise PyRaise(exc)
                     if self.model is not None:
                         result = self.model(I, self, args, kwargs, None)
